@@ -3,6 +3,8 @@
 //!
 //! stdin, one scenario per line:  `<n_actors> | op ; op ; ...`
 //!   call <a> <ns|->            ActorRef::call in its own task (request id = next id)
+//!   dcall <a> <ns|->           the same through DerivedActorRef::call (get_derived)
+//!   mcall <a> <ns|->           the same through the call! / call_t! macros (ns must be whole ms)
 //!   fwd <a> <b> <ns|->         call_and_forward to actor b
 //!   multi <a,b,..> <ns|->      rpc::multi_call in its own task (ids allocated when it runs)
 //!   act <c> <r<v>|d|s|m|p|e> [<c'>:<v>|<c'>:- ...]
@@ -99,6 +101,24 @@ enum Msg {
     Fwd(u64, u64),
 }
 impl ractor::Message for Msg {}
+
+/// message type of the `DerivedActorRef::call` entry point (`dcall`)
+struct DReq(u64, RpcReplyPort<u64>);
+impl ractor::Message for DReq {}
+impl From<DReq> for Msg {
+    fn from(d: DReq) -> Msg {
+        Msg::Req(d.0, d.1)
+    }
+}
+impl TryFrom<Msg> for DReq {
+    type Error = ();
+    fn try_from(m: Msg) -> Result<DReq, ()> {
+        match m {
+            Msg::Req(a, b) => Ok(DReq(a, b)),
+            _ => Err(()),
+        }
+    }
+}
 
 struct Callee;
 struct St {
@@ -259,6 +279,54 @@ async fn scenario(line: &str) -> String {
                     let s = match r {
                         Ok(cr) => res_term(&cr, |v| *v),
                         Err(_) => "OSendFailed".into(),
+                    };
+                    w2.set_res(c, s);
+                });
+            }
+            "dcall" => {
+                // DerivedActorRef::call (rpc.rs, separate impl block)
+                let ai = t[1].parse::<usize>().unwrap();
+                let a: ractor::DerivedActorRef<DReq> = actors[ai].get_derived();
+                let tmo = dur(t[2]);
+                let c = w.new_call(false, tmo, ai, None);
+                let w2 = w.clone();
+                tokio::spawn(async move {
+                    let w3 = w2.clone();
+                    let r = a
+                        .call(
+                            move |port| {
+                                w3.set_t0(c);
+                                DReq(c, port)
+                            },
+                            tmo,
+                        )
+                        .await;
+                    let s = match r {
+                        Ok(cr) => res_term(&cr, |v| *v),
+                        Err(_) => "OSendFailed".into(),
+                    };
+                    w2.set_res(c, s);
+                });
+            }
+            "mcall" => {
+                // the call! / call_t! macros (timeout in whole milliseconds)
+                let ai = t[1].parse::<usize>().unwrap();
+                let a = actors[ai].clone();
+                let tmo = dur(t[2]);
+                let c = w.new_call(false, tmo, ai, None);
+                let w2 = w.clone();
+                tokio::spawn(async move {
+                    w2.set_t0(c);
+                    let r: Result<u64, ractor::RactorErr<Msg>> = match tmo {
+                        None => ractor::call!(a, Msg::Req, c),
+                        Some(d) => ractor::call_t!(a, Msg::Req, d.as_millis() as u64, c),
+                    };
+                    let s = match r {
+                        Ok(v) => format!("(OSuccess {v})"),
+                        Err(ractor::RactorErr::Timeout) => "OTimeout".to_string(),
+                        Err(ractor::RactorErr::Messaging(ractor::MessagingErr::ChannelClosed)) => "OSenderError".to_string(),
+                        Err(ractor::RactorErr::Messaging(_)) => "OSendFailed".to_string(),
+                        Err(_) => "OJoinError".to_string(),
                     };
                     w2.set_res(c, s);
                 });
